@@ -12,7 +12,13 @@ import (
 
 var vNativeDir string
 
+// vNativeResetHooks reset further native state before every replayed case (e.g. the stand-in engine's ledger).
+var vNativeResetHooks []func()
+
 func vNativeReset() {
+	for _, h := range vNativeResetHooks {
+		h()
+	}
 	// undo a lowered file-size limit of a previous case
 	var rl syscall.Rlimit
 	if syscall.Getrlimit(syscall.RLIMIT_FSIZE, &rl) == nil && rl.Cur != rl.Max {
